@@ -208,7 +208,12 @@ register(
     theorems=[],
     suites=[cl_suite("counted", 300, 8000, rule="random histories with listeners added through CounterRemover (trigger counts INT_MIN, -3, -1, 0, 1, 2, 3, 5, INT_MAX) and "
                      "ConditionalRemover (condition on the trigger argument), plain listeners around them, wrapped listeners that re-invoke the list (nested triggers), remove "
-                     "others or themselves; UBSan on; distinct = distinct canonical output; non-trivial = a wrapped listener present and >=4 calls", nontrivial=nt_counted)],
+                     "others or themselves; UBSan on; distinct = distinct canonical output; non-trivial = a wrapped listener present and >=4 calls", nontrivial=nt_counted),
+            # the other specialisation: CounterRemover / ConditionalRemover with a dispatcher / queue as target (the event is
+            # handed over in a variable that changes afterwards; the wrappers must keep their own copy)
+            _rq.q_suite("dispatch", 150, 3000, [_rq.V("single", 0, 0, 0, 0), _rq.V("checked", 1, 1, 0, 0)],
+                        [_rq.V("single", 0, 0, 0, 0), _rq.V("checked", 1, 1, 0, 0), _rq.V("multi", 1, 0, 1, 0, mapk=1)],
+                        nontrivial=_rq.nt_dispatch, use_corpus=False)],
 )
 
 register(
